@@ -408,7 +408,8 @@ def r8_narrowing(ctx):
                 r.ok("narrow/%s/%s" % (arm, meth), "reviewed: " + reviewed_arms[arm], where)
                 continue
             good = None
-            for ae, canon, abi in atoms:
+            forms = [x for ae0, canon, abi in atoms for x in q.atom_forms(ae0)]   # each test as spelled and negated (`if v <= MAX {use} else {None}`)
+            for ae, _c in forms:
                 cm = q.as_cmp(ae)
                 if not cm:
                     continue
